@@ -80,11 +80,11 @@ package rapidcore
 //@ spec srvBuffered(s *Server, id string) bool = srvAccepts(s, id) && old(s.invokeCtx.ReplyStream) != nil && !old(s.invokeCtx.Direct)
 //@ spec noReplyWritten() bool = ghost(httpWrites) == old(ghost(httpWrites))
 
-//@ modset serverReply = s.runtimeState, all(InvokeContext.ReplySent), all(InvokeContext.Direct), httpOut, all(interop.Reset.InvokeResponseMetrics), all(interop.Reset.InvokeResponseMode), all(interop.InvokeResponseMetrics.RuntimeCalledResponse)
+//@ modset serverReply = s.runtimeState, all(InvokeContext.ReplySent), all(InvokeContext.Direct), directSend
 
 //@ func (*Server).sendResponseUnsafe
 //@   requires held(s)
-//@   modifies all(InvokeContext.ReplySent), all(InvokeContext.Direct), httpOut, all(interop.Reset.InvokeResponseMetrics), all(interop.Reset.InvokeResponseMode), all(interop.InvokeResponseMetrics.RuntimeCalledResponse)
+//@   modifies all(InvokeContext.ReplySent), all(InvokeContext.Direct), directSend
 //@   ensures [bad-id] old(s.invokeCtx) == nil || invokeID != old(s.invokeCtx.Token.InvokeID) ==> r0 == interop.ErrInvalidInvokeID && noReplyWritten()
 //@   ensures [bad-id-no-effect] old(s.invokeCtx) != nil && invokeID != old(s.invokeCtx.Token.InvokeID) ==> unchanged(s.invokeCtx, s.invokeCtx.ReplySent, s.invokeCtx.ReplyStream, s.invokeCtx.Direct, s.invokeCtx.Token.InvokeID)
 //@   ensures [second] old(s.invokeCtx) != nil && invokeID == old(s.invokeCtx.Token.InvokeID) && old(s.invokeCtx.ReplySent) ==> r0 == interop.ErrResponseSent && noReplyWritten() && unchanged(s.invokeCtx, s.invokeCtx.ReplySent, s.invokeCtx.ReplyStream, s.invokeCtx.Direct)
